@@ -1,7 +1,7 @@
 CONSTANTS
   N = 2
   K = 2
-  Ops = {"Write", "Subset", "Clone", "MakeGlyphNames", "Layout"}
+  Ops = {"Write", "Subset", "MakeGlyphNames", "Layout"}
   Variant = "ok"
   MaxPar = 2
   Gen = FALSE
